@@ -9,6 +9,9 @@ case = {"tree": node, "ops": [op, ...]}
        | ["M", sel|None, [[name, node], ...]]                MultiplexForecaster
        | ["S", [[name, node], ...], [tag, p, q]]             StackingForecaster (recording meta-regressor)
   op   = ["fit", [[label, value], ...], fh|None, dt?, xdt?] | ["upd", [[label, value], ...], bool, dt?, xdt?] | ["pred", fh|None]
+       | ["ups", [[label, value], ...], bool, fh|None, dt?]          update_predict_single(y_new, fh, update_params)
+       | ["upm", [[label, value], ...], bool, cv|None, dt?]          update_predict(y, cv, update_params);
+                                                                    cv = [kind "s"|"e", window_length, step_length, start_with_window, fh] | None (default splitter)
          dt  = dtype of the series as handed to the real code: "f8" (default) | "f4" | "i8" | "i4"  (integer-valued data for i*)
          xdt = None (default: no exogenous frame) | dtype of a 2-column exogenous frame on the same index
          dt / xdt are a harness-only dimension: the values are the same numbers, so the model line does not mention them;
@@ -49,6 +52,9 @@ OBLIGATIONS = [
     "SkVerif.C09.stack_members_refit_on_all",
     "SkVerif.C09.stack_predict_eq_regressor_of_members",
     "SkVerif.C09.stack_insample_horizon_leaks",
+    "SkVerif.C09.combined_entry_points_are_fit_free",
+    "SkVerif.C09.ensemble_setCutoff_members",
+    "SkVerif.C09.member_receives_its_own_update_predict",
 ]
 TRUSTED = ["hand-written model SkVerif/Model/Compose.lean of the four composites and of the _SktimeForecaster bookkeeping they call",
            "harness/recorders_C09.py (recording leaves; their Lean twins recF/recT/recG are part of the model)",
@@ -59,9 +65,12 @@ ASSUMPTIONS = ["integer labels, relative integer horizons, no prediction interva
                "(recording leaves ignore it; StackingForecaster.fit rejects it)",
                "series handed to fit have strictly increasing contiguous labels (stacking holds out by position, members forecast by label)",
                "joblib Parallel(n_jobs=None) runs members sequentially in list order (log order)",
+               "update_predict_single / update_predict are modelled as the histories of update / predict / _set_cutoff calls the base class makes "
+               "(upsOps, upmOps; splitter windows from the C01 model); the composites' _set_cutoff poke of their members at the start of a "
+               "non-empty update is absorbed by the member's own update (same cutoff) and not modelled separately",
                "member names are valid identifiers that do not clash with constructor arguments; only duplicate names are modelled as rejected",
                "OnlineEnsembleForecaster only without an ensemble algorithm (uniform weights)"]
-RULE = ("fixed-order small scope: every composite kind x member shapes to depth 2 x 10 histories x 4 horizons, the dtype of the series "
+RULE = ("fixed-order small scope: every composite kind x member shapes to depth 2 x 16 histories (predict, update then predict, update_predict_single, update_predict with explicit and default splitter) x 4 horizons, the dtype of the series "
         "(float64/float32/int64/int32, integer-valued data for integer dtypes) and of an optional exogenous frame rotating over the enumeration "
         "(quick: seed-rotated slice) "
         "+ random composition trees to depth 3 with random dyadic series of random dtype and histories of <= 6 calls "
@@ -109,11 +118,23 @@ def _X(pairs, xdt):
 
 
 def _dt(op):
-    return op[3] if len(op) > 3 and op[3] else "f8"
+    i = 4 if op[0] in ("ups", "upm") else 3
+    return op[i] if len(op) > i and op[i] else "f8"
 
 
 def _xdt(op):
-    return op[4] if len(op) > 4 else None
+    return op[4] if op[0] in ("fit", "upd") and len(op) > 4 else None
+
+
+def _make_cv(cv):
+    from sktime.forecasting.model_selection import SlidingWindowSplitter, ExpandingWindowSplitter
+    if cv is None:
+        return None
+    kind, wl, step, sww, fh = cv
+    if kind == "s":
+        return SlidingWindowSplitter(fh=list(fh), window_length=wl, step_length=step, start_with_window=bool(sww))
+    # (the expanding splitter calls its window length `initial_window`)
+    return ExpandingWindowSplitter(fh=list(fh), initial_window=wl, step_length=step, start_with_window=bool(sww))
 
 
 _DECOY = [[0, 99.0], [1, 98.0]]
@@ -184,7 +205,34 @@ def _apply(obj, op):
         return None
     if op[0] == "pred":
         return obj.predict(None if op[1] is None else list(op[1]))
+    if op[0] == "ups":
+        return obj.update_predict_single(_S(op[1], _dt(op)), fh=None if op[3] is None else list(op[3]), update_params=bool(op[2]))
+    if op[0] == "upm":
+        return obj.update_predict(_S(op[1], _dt(op)), cv=_make_cv(op[3]), update_params=bool(op[2]))
     raise ValueError(op)
+
+
+def _canon_out(o):
+    """None | [(label, value)] for a Series | ("frame", [(column label, [(label, value)])]) for a DataFrame (NaN cells dropped)"""
+    import recorders_C09 as R
+    if o is None:
+        return None
+    if isinstance(o, pd.DataFrame):
+        cols = []
+        for k in range(o.shape[1]):
+            col = o.iloc[:, k].dropna()
+            cols.append((int(o.columns[k]), R.ser(col)))
+        return ("frame", cols)
+    if isinstance(o, pd.Series):
+        return R.ser(o)
+    return o     # already canonical (reference compositions)
+
+
+def _flat(o):
+    """a forecast as one list of (label, value): the columns of a moving-cutoff frame one after the other"""
+    if isinstance(o, tuple) and o and o[0] == "frame":
+        return [p for _, col in o[1] for p in col]
+    return o
 
 
 @contextmanager
@@ -215,7 +263,7 @@ def observe(obj, ops):
                 o = _apply(obj, op)
             except Exception as e:
                 return outs, logs, (j, e)
-            outs.append(None if o is None else R.ser(o))
+            outs.append(_canon_out(o))
             logs.append(list(R.LOG[n0:]))
     return outs, logs, None
 
@@ -267,7 +315,60 @@ def _node_str(n):
     raise ValueError(k)
 
 
-def _op_str(op):
+def _out_str(o):
+    if o is None:
+        return "ok"
+    if isinstance(o, tuple) and o[0] == "frame":
+        return "~".join("%d>%s" % (c, _ser_str(col)) for c, col in o[1])
+    return _ser_str(o)
+
+
+def _remembered_fh(tree, ops):
+    """the horizon the root remembers after `ops` (all successful): last one given to fit / predict / update_predict*"""
+    cur = None
+    for o in ops:
+        f = None
+        if o[0] == "fit":
+            f = o[2]
+        elif o[0] == "pred":
+            f = o[1]
+        elif o[0] == "ups":
+            f = o[3]
+        elif o[0] == "upm" and o[3] is not None:
+            f = o[3][4]
+        if f is not None and not (tree[0] == "S" and cur is not None):
+            cur = sorted(f)
+    return cur
+
+
+def _default_cv(tree, ops_before):
+    """the splitter `update_predict(cv=None)` builds, spelled out (None: no horizon remembered -> the call fails)"""
+    if tree[0] == "E" and tree[1] == "online":
+        return ["s", 1, 1, True, [1]]
+    f = _remembered_fh(tree, ops_before)
+    return None if f is None else ["s", 10, 1, False, f]
+
+
+def _explicit(tree, ops):
+    """the same history with every default splitter spelled out (so that parts can be driven through the same call)"""
+    out = []
+    for j, o in enumerate(ops):
+        if o[0] == "upm" and o[3] is None:
+            cv = _default_cv(tree, ops[:j])
+            out.append([o[0], o[1], o[2], cv] + list(o[4:]))
+        else:
+            out.append(o)
+    return out
+
+
+def _op_str(op, tree=None, before=()):
+    if op[0] == "ups":
+        return "ups %s %s %s" % (_ser_str(op[1]), show_bool(op[2]), _fh_str(op[3]))
+    if op[0] == "upm":
+        cv = op[3] if op[3] is not None else _default_cv(tree, list(before))
+        if cv is None:
+            return "upm %s %s s 10 1 F nofh" % (_ser_str(op[1]), show_bool(op[2]))
+        return "upm %s %s %s %d %d %s %s" % (_ser_str(op[1]), show_bool(op[2]), cv[0], cv[1], cv[2], show_bool(cv[3]), show_ints(cv[4]))
     if op[0] == "fit":
         return "fit %s %s" % (_ser_str(op[1]), _fh_str(op[2]))
     if op[0] == "upd":
@@ -276,7 +377,8 @@ def _op_str(op):
 
 
 def to_line(c):
-    return re.sub(r"\s+", " ", "C09 run %s | %s" % (_node_str(c["tree"]), " ".join(_op_str(o) for o in c["ops"]))).strip()
+    ops = c["ops"]
+    return re.sub(r"\s+", " ", "C09 run %s | %s" % (_node_str(c["tree"]), " ".join(_op_str(o, c["tree"], ops[:j]) for j, o in enumerate(ops)))).strip()
 
 
 def run_real(c):
@@ -285,7 +387,7 @@ def run_real(c):
     except Exception as e:  # constructors do not validate; anything here is a harness problem
         return "E:construct:" + canon_err(e)
     outs, logs, err = observe(obj, c["ops"])
-    o = ["ok" if x is None else _ser_str(x) for x in outs]
+    o = [_out_str(x) for x in outs]
     if err is not None:
         return ";".join(o + [canon_err(err[1])])
     return ";".join(o) + " # " + " @ ".join(("-" if not l else ";".join(_ev_str(e) for e in l)) for l in logs)
@@ -334,6 +436,8 @@ def parse_out(s):
             outs.append(None)
         elif tok.startswith("E:"):
             outs.append(tok)
+        elif ">" in tok:
+            outs.append(("frame", [(int(col.split(">")[0]), _p_ser(col.split(">")[1])) for col in tok.split("~")]))
         else:
             outs.append(_p_ser(tok))
     return outs, logs
@@ -345,6 +449,14 @@ def _num_close(a, b):
 
 def _ser_close(a, b):
     return len(a) == len(b) and all(x[0] == y[0] and _num_close(x[1], y[1]) for x, y in zip(a, b))
+
+
+def _out_close(a, b):
+    """two forecasts (series or moving-cutoff frames) agree, column labels included when both are frames"""
+    fa, fb = isinstance(a, tuple), isinstance(b, tuple)
+    if fa and fb and [c for c, _ in a[1]] != [c for c, _ in b[1]]:
+        return False
+    return _ser_close(_flat(a), _flat(b))
 
 
 def _rows_close(a, b):
@@ -381,7 +493,7 @@ def compare(real, model):
         if a is None or b is None or isinstance(a, str) or isinstance(b, str):
             if a != b:
                 return False
-        elif not _ser_close(a, b):
+        elif isinstance(a, tuple) != isinstance(b, tuple) or not _out_close(a, b):
             return False
     if rl is not None:
         if len(rl) != len(ml):
@@ -441,7 +553,10 @@ def _np_agg(agg, cols):
 def _same_out(a, b):
     if a is None or b is None:
         return a is None and b is None
-    return _ser_close(a, b)
+    return _out_close(a, b)
+
+
+_SITE = {"fit": "fit", "upd": "update", "pred": "predict", "ups": "update_predict_single", "upm": "update_predict"}
 
 
 def _oracle_ens(node, ops, outs, logs):
@@ -452,19 +567,23 @@ def _oracle_ens(node, ops, outs, logs):
     if any(len(r[0]) < n for r in refs):
         return [("EnsembleForecaster:member-fails-alone-where-ensemble-succeeds", "a member run on its own fails earlier than the ensemble")]
     if agg in AGGS:
+        seen = set()
         for j in range(n):
-            if ops[j][0] != "pred":
+            if outs[j] is None:
                 continue
-            cols = [[v for _, v in r[0][j]] for r in refs]
-            labs = [[l for l, _ in r[0][j]] for r in refs]
+            # every entry point that returns a forecast: predict, update_predict_single, update_predict
+            flats = [_flat(r[0][j]) for r in refs]
+            cols = [[v for _, v in f] for f in flats]
+            labs = [[l for l, _ in f] for f in flats]
             if any(l != labs[0] for l in labs):
                 exp = None      # the independently run members do not even forecast the same labels
             else:
                 exp = list(zip(labs[0], _np_agg(agg, cols)))
-            if exp is None or not _ser_close(outs[j], exp):
-                fails.append(("EnsembleForecaster.predict:not-%s-of-independently-fitted-members" % ("weighted-mean" if agg == "online" else agg),
-                              "call %d: got %s, %s of members is %s" % (j, outs[j], agg, exp)))
-                break
+            if exp is None or not _ser_close(_flat(outs[j]), exp):
+                key = "EnsembleForecaster.%s:not-%s-of-independently-fitted-members" % (_SITE[ops[j][0]], "weighted-mean" if agg == "online" else agg)
+                if key not in seen:
+                    seen.add(key)
+                    fails.append((key, "call %d (%s): got %s, %s of members is %s" % (j, ops[j][0], _flat(outs[j]), agg, exp)))
     for (nm, ch), r in zip(members, refs):
         tg = _tags(ch)
         for j in range(n):
@@ -520,6 +639,26 @@ class _SpecPipeline:
             z = t.transform(z)
         self.f.update(z, update_params=update_params)
 
+    def update_predict_single(self, y, fh=None, X=None, update_params=True):
+        # "update and make forecasts": the updated pipeline's forecast
+        self.update(y, update_params=update_params)
+        return self.predict(fh)
+
+    def update_predict(self, y, cv=None, X=None, update_params=True):
+        # "make and update predictions iteratively over the test set": the forecasting origin is moved to just before the
+        # new data, every window the splitter yields is fed through update-then-predict, the origin is put back
+        fh = [int(v) for v in cv.get_fh().to_pandas()]
+        orig = self.f.cutoff
+        preds = []
+        self.f._set_cutoff(int(y.index[0]) - 1)
+        try:
+            for w, _ in cv.split(y):
+                self.update(y.iloc[w], update_params=update_params)
+                preds.append((int(self.f.cutoff), _canon_out(self.predict(fh))))
+        finally:
+            self.f._set_cutoff(orig)
+        return ("frame", preds)
+
     def predict(self, fh=None):
         from sktime.utils import _has_tag
         p = self.f.predict(fh)
@@ -540,47 +679,46 @@ def _oracle_pipe(node, ops, outs, logs):
     ttags = {("T", t[0]) for t in trs}
     tainted = None   # key of the first update that handed untransformed data (later forecasts are its consequences)
     seen = set()
+
+    def fail(key, msg):
+        if key not in seen:
+            seen.add(key)
+            fails.append((key, msg))
+
     for j in range(n):
         kind = ops[j][0]
-        if kind in ("fit", "upd"):
-            site = "fit" if kind == "fit" else "update"
+        site = _SITE[kind]
+        if kind != "pred":
             if kind == "fit":
                 tainted = None   # everything is cloned and fitted afresh
             if not _log_close(_only(logs[j], ftags), _only(r_log[j], ftags)):
                 key = "TransformedTargetForecaster.%s:final-forecaster-handed-untransformed-data" % site
-                if kind == "upd" and not tainted:
+                if kind != "fit" and not tainted:
                     tainted = key
-                if key not in seen:
-                    seen.add(key)
-                    fails.append((key, "call %d: final forecaster was handed %s, the transformed representation is %s"
-                                  % (j, _only(logs[j], ftags), _only(r_log[j], ftags))))
+                fail(key, "call %d: final forecaster was handed %s, the transformed representation is %s"
+                     % (j, _only(logs[j], ftags), _only(r_log[j], ftags)))
             t_real, t_spec = _only(logs[j], ttags), _only(r_log[j], ttags)
-            if kind == "upd":   # what each transformer's `update` was handed
+            if kind != "fit":   # what each transformer's `update` was handed
                 t_real, t_spec = [e for e in t_real if e[2] == "update"], [e for e in t_spec if e[2] == "update"]
             if not _log_close(t_real, t_spec):
                 # the representation is defined by the transformers: each one works on the series transformed so far
                 key = ("TransformedTargetForecaster.fit:transformers-not-fitted-in-order-on-transformed-series" if kind == "fit"
-                       else "TransformedTargetForecaster.update:transformers-handed-untransformed-data")
-                if kind == "upd" and not tainted:
+                       else "TransformedTargetForecaster.%s:transformers-handed-untransformed-data" % site)
+                if kind != "fit" and not tainted:
                     tainted = key
-                if key not in seen:
-                    seen.add(key)
-                    fails.append((key, "call %d: transformers were handed %s, expected %s" % (j, t_real, t_spec)))
-        else:
+                fail(key, "call %d: transformers were handed %s, expected %s" % (j, t_real, t_spec))
+        if outs[j] is not None:
             inv = [e[1] for e in logs[j] if e[0] == "T" and e[2] == "inverse" and ("T", e[1]) in ttags]
-            exp_inv = [t[0] for t in reversed(trs) if not t[4]]
+            exp_inv = [e[1] for e in r_log[j] if e[0] == "T" and e[2] == "inverse" and ("T", e[1]) in ttags]
             if inv != exp_inv:
-                key = "TransformedTargetForecaster.predict:inverse-transforms-not-in-reverse-order"
-                if key not in seen:
-                    seen.add(key)
-                    fails.append((key, "call %d: inverse transforms applied by %s, expected %s" % (j, inv, exp_inv)))
-            if not _ser_close(outs[j], r_out[j]):
+                fail("TransformedTargetForecaster.%s:inverse-transforms-not-in-reverse-order" % site,
+                     "call %d: inverse transforms applied by %s, expected %s" % (j, inv, exp_inv))
+            if not _out_close(_flat(outs[j]), _flat(r_out[j])):
                 # after an update that handed raw data to the final forecaster its state differs from the
                 # specified one; the wrong forecast is then a consequence of that (already reported) failure
-                key = tainted or "TransformedTargetForecaster.predict:not-inverse-chain-of-final-forecast"
-                if key not in seen:
-                    seen.add(key)
-                    fails.append((key, "call %d: got %s, the composition of the parts gives %s" % (j, outs[j], r_out[j])))
+                key = tainted or ("TransformedTargetForecaster.predict:not-inverse-chain-of-final-forecast" if kind == "pred"
+                                  else "TransformedTargetForecaster.%s:not-the-composition-of-the-parts" % site)
+                fail(key, "call %d: got %s, the composition of the parts gives %s" % (j, outs[j], r_out[j]))
     return fails
 
 
@@ -666,24 +804,36 @@ def _oracle_stack(node, ops, outs, logs):
                     greg = None
         elif ref is not None:
             exp_log = []
-            res = []
-            for r in ref:
-                o, l, e = observe(r, [op if op[0] == "upd" else ["pred", None]])
-                if e is not None:
-                    fail("StackingForecaster:member-fails-alone", "call %d" % j)
-                    return fails
-                exp_log.extend(l[0])
-                res.append(o[0])
-            if not _log_close(_only(logs[j], mtags), exp_log):
-                fail("StackingForecaster.%s:members-not-handled-independently" % ("update" if op[0] == "upd" else "predict"),
+            # the members are driven through the same entry point (update / predict / update then predict / their own update_predict)
+            if op[0] == "upd":
+                sub = [op]
+            elif op[0] == "pred":
+                sub = [["pred", None]]
+            elif op[0] == "ups":
+                sub = [["upd", op[1], op[2], _dt(op)], ["pred", None]]
+            else:
+                sub = [op]
+            res = [None] * len(ref)
+            for so in sub:          # the stacker hands each step to all members in turn
+                for i, r in enumerate(ref):
+                    o, l, e = observe(r, [so])
+                    if e is not None:
+                        fail("StackingForecaster:member-fails-alone", "call %d" % j)
+                        return fails
+                    exp_log.extend(l[0])
+                    res[i] = _flat(o[0])
+            if op[0] == "upm" and len(members) > 1:
+                exp_log = None    # per window: all members update, then all predict; interleaving is checked by the correspondence
+            if exp_log is not None and not _log_close(_only(logs[j], mtags), exp_log):
+                fail("StackingForecaster.%s:members-not-handled-independently" % {"upd": "update", "pred": "predict"}.get(op[0], _SITE[op[0]]),
                      "call %d: members handed %s, expected %s" % (j, _only(logs[j], mtags), exp_log))
-            if op[0] == "pred" and greg is not None:
+            if outs[j] is not None and greg is not None:
                 X = np.array([[v for _, v in p] for p in res], dtype="float64").T
                 with _capture():
                     v = greg.predict(X)
                 exp = list(zip([l for l, _ in res[0]], [float(x) for x in v]))
-                if not _ser_close(outs[j], exp):
-                    fail("StackingForecaster.predict:not-meta-regressor-of-member-forecasts", "call %d: got %s, expected %s" % (j, outs[j], exp))
+                if not _ser_close(_flat(outs[j]), exp):
+                    fail("StackingForecaster.%s:not-meta-regressor-of-member-forecasts" % _SITE[op[0]], "call %d: got %s, expected %s" % (j, outs[j], exp))
     return fails
 
 
@@ -721,7 +871,7 @@ def oracle(c, real_out):
     if real_out.startswith("E:construct"):
         return []
     outs, logs = parse_out(real_out)
-    ops = c["ops"]
+    ops = _explicit(c["tree"], c["ops"])
     if logs is None:
         # a call failed: evaluate the property on the successful prefix (re-observed to get its log)
         k = len(outs) - 1
@@ -776,7 +926,13 @@ def features(c, real_out):
         f.append("err=" + real_out.split(";")[-1])
     if c["tree"][0] == "E":
         f.append("agg=" + str(c["tree"][1]))
-    dts = sorted({_dt(o) for o in c["ops"] if o[0] in ("fit", "upd")})
+    for o in c["ops"]:
+        if o[0] == "ups":
+            f.append("entry=update_predict_single")
+        elif o[0] == "upm":
+            f.append("entry=update_predict" + ("(default splitter)" if o[3] is None else "(%s)" % ("sliding" if o[3][0] == "s" else "expanding")))
+    f = sorted(set(f), key=f.index)
+    dts = sorted({_dt(o) for o in c["ops"] if o[0] in ("fit", "upd", "ups", "upm")})
     f.append("y-dtype=" + "+".join(dts))
     if any(_xdt(o) for o in c["ops"] if o[0] in ("fit", "upd")):
         f.append("with-X")
@@ -862,6 +1018,9 @@ def _with_dtypes(case, dt, dtu=None, xdt=None):
         if o[0] in ("fit", "upd"):
             pairs = [[l, float(round(v)) if ints else v] for l, v in o[1]]
             ops.append([o[0], pairs, o[2], dt if o[0] == "fit" else dtu, xdt])
+        elif o[0] in ("ups", "upm"):
+            pairs = [[l, float(round(v)) if ints else v] for l, v in o[1]]
+            ops.append([o[0], pairs, o[2], o[3], dtu])
         else:
             ops.append(o)
     return {"tree": case["tree"], "ops": ops}
@@ -888,36 +1047,67 @@ def _history(rng, need_fh_at_fit):
     ops = [["fit", _series(rng, origin, n), fit_fh]]
     last = origin + n - 1
     have_fh = fit_fh is not None
+    cur_fh = sorted(fit_fh) if fit_fh is not None else None
+
+    def batch(k=None):
+        q = rng.random()
+        start = last + 1 if q < 0.7 else (last - 1 if q < 0.8 else (last + 2 if q < 0.9 else last + 1))
+        if k is None:
+            k = 0 if 0.9 <= q < 0.93 else rng.randint(1, 3)
+        return start, k
+
     for _ in range(rng.randint(0, 5)):
         r = rng.random()
-        if r < 0.45:
+        if r < 0.35:
             if have_fh and rng.random() < 0.6:
                 ops.append(["pred", None])
             else:
                 f2 = fh if need_fh_at_fit else rng.choice(fhs)
                 ops.append(["pred", f2])
-                have_fh = True
-        elif r < 0.93:
-            q = rng.random()
-            start = last + 1 if q < 0.7 else (last - 1 if q < 0.8 else (last + 2 if q < 0.9 else last + 1))
-            k = 0 if 0.9 <= q < 0.93 else rng.randint(1, 3)
-            if q >= 0.93:
-                start, k = last + 1, rng.randint(1, 3)
+                have_fh, cur_fh = True, sorted(f2)
+        elif r < 0.65:
+            start, k = batch()
             ops.append(["upd", _series(rng, start, k), rng.random() < 0.65])
             if k:
                 last = start + k - 1
+        elif r < 0.78:
+            # update_predict_single
+            start, k = batch(rng.randint(1, 3))
+            if have_fh and rng.random() < 0.6:
+                f2 = None
+            else:
+                f2 = fh if need_fh_at_fit else rng.choice(fhs)
+                have_fh, cur_fh = True, sorted(f2)
+            ops.append(["ups", _series(rng, start, k), rng.random() < 0.65, f2])
+            last = start + k - 1
+        elif r < 0.93:
+            # update_predict: explicit sliding / expanding splitter, or the default one
+            up = rng.random() < 0.65
+            if have_fh and rng.random() < 0.2:
+                k = 10 + max(cur_fh) + rng.randint(0, 2) if rng.random() < 0.9 else rng.randint(2, 6)
+                ops.append(["upm", _series(rng, last + 1, k), up, None])
+            else:
+                f2 = fh if need_fh_at_fit else rng.choice(fhs)
+                wl, step = rng.randint(1, 3), rng.randint(1, 2)
+                k = wl + max(f2) + rng.randint(0, 3) if rng.random() < 0.9 else rng.randint(1, wl + max(f2) - 1)
+                ops.append(["upm", _series(rng, last + 1 if rng.random() < 0.85 else last, k), up,
+                            [rng.choice("se"), wl, step, rng.random() < 0.5, f2]])
+                have_fh, cur_fh = True, sorted(f2)
+            # the cutoff is put back afterwards; the data stay remembered
         else:
             n2 = rng.randint(3, 7)
             o2 = rng.randint(-3, 20)
             ops.append(["fit", _series(rng, o2, n2), fit_fh if fit_fh is not None else (fh if have_fh else None)])
             last = o2 + n2 - 1
-    if not any(o[0] == "pred" for o in ops):
+    if not any(o[0] in ("pred", "ups", "upm") for o in ops):
         ops.append(["pred", None if have_fh else fh])
     return ops
 
 
 _Y6 = [[5, 1.0], [6, 2.0], [7, 4.0], [8, 8.0], [9, 16.0], [10, 32.0]]
 _Y5 = [[0, 3.0], [1, -1.5], [2, 0.25], [3, 7.0], [4, 2.0]]
+_U6 = [[11, 3.0], [12, 5.0], [13, 7.0], [14, 2.0], [15, 6.0], [16, 9.0]]
+_U14 = [[11 + i, float((7 * i) % 11 + 1)] for i in range(14)]
 _Y7 = [[0, 3.0], [1, 5.0], [2, 4.0], [3, 8.0], [4, 9.0], [5, 7.0], [6, 12.0]]
 
 
@@ -973,6 +1163,13 @@ def _small_scope():
             [["fit", _Y6, None], ["pred", fh]],
             [["fit", _Y6, None], ["pred", fh], ["upd", u1, True], ["pred", None]],
             [["fit", _Y7, fh], ["pred", None], ["upd", [[7, 13.0], [8, 11.0]], True], ["pred", None]],
+            # the combined entry points: update_predict_single, update_predict (explicit sliding / expanding splitter, default splitter)
+            [["fit", _Y6, fh], ["ups", u1, True, None]],
+            [["fit", _Y6, fh], ["ups", u1, False, fh], ["pred", None]],
+            [["fit", _Y6, fh], ["upm", _U6, True, ["s", 2, 1, False, fh]], ["pred", None]],
+            [["fit", _Y6, fh], ["upm", _U6, False, ["e", 1, 2, True, fh]]],
+            [["fit", _Y6, fh], ["upm", _U14, True, None], ["pred", None]],
+            [["fit", _Y6, None], ["pred", fh], ["upm", _U14, True, None]],
         ]
     cases = [{"tree": _retag(t), "ops": h} for t in trees for h in hists]
     # dtype of the series / of the exogenous frame rotates over the enumeration (fixed order)
@@ -1017,6 +1214,14 @@ def _malformed(rng):
             {"tree": t, "ops": [["fit", _Y6, [-1, 2]], ["pred", None]]},
             {"tree": t, "ops": [["fit", _Y6, [-2, -1]], ["pred", None]]},
             {"tree": t, "ops": [["fit", _Y6, [-9, 1]], ["pred", None]]},
+            {"tree": t, "ops": [["ups", _Y6, True, [1]]]},
+            {"tree": t, "ops": [["upm", _U6, True, ["s", 2, 1, False, [1]]]]},
+            {"tree": t, "ops": [fit, ["upm", [], True, ["s", 2, 1, False, [1, 2]]]]},
+            {"tree": t, "ops": [["fit", _Y6, None], ["upm", _U14, True, None]]},
+            {"tree": t, "ops": [fit, ["upm", _U6[:3], True, ["s", 2, 1, False, [1, 2]]]]},
+            {"tree": t, "ops": [fit, ["upm", _U6, True, None]]},
+            {"tree": t, "ops": [fit, ["ups", _U6[:2], True, [2, 2]]]},
+            {"tree": t, "ops": [fit, ["ups", _U6[:2], True, None], ["upm", _U6[2:], True, ["e", 1, 1, True, [3]]], ["pred", None]]},
         ]
     cases += [
         {"tree": ["E", "mean", [["a", la], ["a", lb]]], "ops": [fit]},
@@ -1049,7 +1254,7 @@ def gen_cases(tier, rng):
         off = rng.randrange(k)
         cases += small[off::k]
     cases += _malformed(rng)
-    nrand = 9000 if tier == "thorough" else 450
+    nrand = 6000 if tier == "thorough" else 450
     for i in range(nrand):
         tg = _Tagger()
         depth = rng.choice([1, 1, 2, 2, 2, 3, 3])
